@@ -727,7 +727,7 @@ func TestVerifC23RoundTrip(t *testing.T) {
 	defer r.Finish(t)
 	r.Rule("roundtrip: one generated valid VersionEdit per case (every encodable field present with some probability, boundary-biased uint64 values, " +
 		"random byte keys, physical/virtual tables with point and/or range bounds); distinct = distinct encoding; non-trivial = at least one tag emitted")
-	n := vcommon.Scale(8000, 150000)
+	n := vcommon.Scale(8000, 60000)
 	r.Cases(n, func(i int, rng *rand.Rand) {
 		ve := verifC23WildEdit(rng, i%5 == 0, true)
 		enc, _ := verifC23CheckRoundTrip(r, ve, func(i int, _ base.DiskFileNum) *TableBacking {
@@ -1490,7 +1490,7 @@ func TestVerifC23Replay(t *testing.T) {
 	defer r.Finish(t)
 	r.Rule("replay: one consistent edit sequence (3-30 edits) per case, generated from a model LSM; distinct = distinct concatenated encoding; " +
 		"non-trivial = sequence in which at least one table is both added and deleted and the final version is non-empty")
-	n := vcommon.Scale(1200, 20000)
+	n := vcommon.Scale(1200, 10000)
 	const rcr = 32000
 	r.Cases(n, func(ci int, rng *rand.Rand) {
 		g := verifC23NewGen(rng)
@@ -2216,7 +2216,7 @@ func TestVerifC23Fuzz(t *testing.T) {
 		"bit flips, byte sets, truncation, splice, insert, delete, tag swap, concatenation, huge varints, unmutated); distinct = distinct behaviour signature " +
 		"(strategy, outcome, error kind with numbers removed, record kinds of the decoded edit); non-trivial = non-empty input that was executed (not skipped by the allocation guard)")
 	r.Assume("length prefixes / blob-reference counts in (2^12 resp. 2^8, 2^49] that exceed the remaining input are not executed (a pre-allocating decoder would allocate the declared size before failing); such inputs are counted in fuzz_skipped_by_guard")
-	n := vcommon.Scale(1400, 20000)
+	n := vcommon.Scale(1400, 8000)
 	const perCase = 64
 	panicsSeen := map[string]int{}
 	mismatchSeen := map[string]int{}
